@@ -398,6 +398,12 @@ var operatorMap = map[Token]int{
 	DIV:      DIV,
 	MOD:      1, //fixme
 
+	// the bitwise operators the statement grammar accepts: without them the expression re-parser stops in front of
+	// the operator and silently returns the left operand only
+	BITWISE_AND: BITWISE_AND,
+	BITWISE_OR:  BITWISE_OR,
+	BITWISE_XOR: BITWISE_XOR,
+
 	MATCH:       MATCH,
 	MATCHPHRASE: MATCHPHRASE,
 	IPINRANGE:   IPINRANGE,
